@@ -340,3 +340,76 @@ twin('C12', 'rollback-rename-src', CONNPY, 'Connection._rollback_savepoint',
         written = store.index
         store.reset(*state)
         self._cache.invalidate(written)''')
+
+# ---------------------------------------------------------------- C13
+BLOBPY = 'ZODB/blob.py'
+PACKPY = 'ZODB/FileStorage/fspack.py'
+breaker('C13', 'fs-abort-blob-cleanup-only-after-vote', 'C13.R1', FSPY,
+        'FileStorage._abort',
+        '''            self._nextpos = 0
+        self._blob_tpc_abort()''', '''            self._nextpos = 0
+            self._blob_tpc_abort()''')
+breaker('C13', 'fs-finish-keeps-dirty-list', 'C13.R1', FSPY,
+        'FileStorage._finish_finish',
+        '''        self._blob_tpc_finish()
+''', '')
+breaker('C13', 'blobstorage-abort-no-cleanup', 'C13.R1', BLOBPY,
+        'BlobStorage.tpc_abort',
+        '''        if ours:
+            self._blob_tpc_abort()''', '''        if ours:
+            pass''')
+breaker('C13', 'storeblob-file-before-record', 'C13.R2', BLOBPY,
+        'BlobStorageMixin.storeBlob',
+        '''        self.store(oid, oldserial, data, '', transaction)
+        self._blob_storeblob(oid, self._tid, blobfilename)''',
+        '''        self._blob_storeblob(oid, self._tid, blobfilename)
+        self.store(oid, oldserial, data, '', transaction)''')
+breaker('C13', 'storeblob-dirty-after-rename', 'C13.R3', BLOBPY,
+        'BlobStorageMixin._blob_storeblob',
+        '''            self.dirty_oids.append((oid, serial))
+            rename_or_copy_blob(blobfilename, targetname)''',
+        '''            rename_or_copy_blob(blobfilename, targetname)
+            self.dirty_oids.append((oid, serial))''')
+breaker('C13', 'undo-dirty-wrong-serial', 'C13.R3', BLOBPY, 'BlobStorage.undo',
+        'self.dirty_oids.append((oid, undo_serial))',
+        'self.dirty_oids.append((oid, serial_id))')
+breaker('C13', 'blob-open-committed-for-update', 'C13.R4', BLOBPY, 'Blob.open',
+        '''                if self._p_blob_uncommitted is None:
+                    # Create a new working copy
+                    self._create_uncommitted_file()
+                    result = BlobFile(self._p_blob_uncommitted, mode, self)
+                    if self._p_blob_committed:
+                        with open(self._p_blob_committed, 'rb') as fp:
+                            utils.cp(fp, result)
+                        if mode == 'r+':
+                            result.seek(0)''',
+        '''                if self._p_blob_uncommitted is None:
+                    result = BlobFile(self._p_blob_committed, mode, self)''')
+breaker('C13', 'pack-removes-unlisted', 'C13.R5', FSPY,
+        'FileStorage._remove_blob_files_tagged_for_removal_during_pack',
+        '''                handle_file(path)
+                assert not os.path.exists(path)''',
+        '''                handle_file(path)
+                handle_dir(os.path.dirname(os.path.dirname(fshelper.temp_dir)))
+                assert not os.path.exists(path)''')
+breaker('C13', 'store-objects-leak-working-file', 'C13.R6', CONNPY,
+        'Connection._store_objects',
+        '''                    if os.path.exists(blobfilename):
+                        os.remove(blobfilename)
+                    raise''', '''                    raise''')
+breaker('C13', 'packer-bare-oid-entry', 'C13.R7', PACKPY,
+        'FileStoragePacker.copyDataRecords',
+        'binascii.hexlify(h.oid + h.tid) + b\'\\n\')',
+        'binascii.hexlify(h.oid) + b\'\\n\')')
+twin('C13', 'storeblob-helper-name', BLOBPY, 'BlobStorageMixin._blob_storeblob',
+     '''            targetname = self.fshelper.getBlobFilename(oid, serial)''',
+     '''            helper = self.fshelper
+            targetname = helper.getBlobFilename(oid, serial)''')
+twin('C13', 'store-objects-unlink', CONNPY, 'Connection._store_objects',
+     '''                    if os.path.exists(blobfilename):
+                        os.remove(blobfilename)
+                    raise''', '''                    try:
+                        os.unlink(blobfilename)
+                    except OSError:
+                        pass
+                    raise''')
